@@ -120,6 +120,15 @@ CHECKS = {
              '(silently ignored / line-less faults) were repaired by fix: commit 0f0a5e3. Partial: that the real transformer performs exactly the '
              'lookups of the model on every sentence form is checked by injection, not proved.',
         design='DESIGN.md §6 C17'),
+    'C15': dict(
+        technique='Lean 4 proof about the string layer of the explanation printer + correspondence; selection / mention / distinctness / read-back search on real answer sets and telingo traces',
+        text='Lean theorems (string layer): the final capitalisation changes at most the first character, so no value is altered; every value '
+             'handed to the entity printer occurs in the printed text, for any number of attributes; copula normalisation is total.',
+        note='Trusted: Lean kernel; unit correspondence with the real _entity_printer / _convert_verb. PARTIAL: the matching of an atom\'s '
+             'arguments to subject / objects (stateful list surgery in the result parser) is not modelled in Lean; selection, order, mention '
+             'of every value, distinctness, read-back round trip and per-state grouping are decided by the search on real clingo answer sets '
+             '(~220 per quick run) and real telingo traces, i.e. sampled, not proved. Genuine defect F9 repaired by a fix: commit; F26 known finding.',
+        design='DESIGN.md §6 C15'),
 }
 
 NOT_YET = {}
